@@ -89,3 +89,58 @@ class Adaptive(Process):
         if states['own']['elapsed'] >= 2.0:
             self.parameters['timestep'] = 0.5
         return {'shared': {'count': 1}, 'own': {'elapsed': timestep}}
+
+
+def _child_job():
+    return None
+
+
+class Spawner(Acc):
+    """as Acc, but every call uses OS-level parallelism of its own (a child process started and joined inside
+    next_update, as a process wrapping a nested parallel simulation or a worker pool does)"""
+    def next_update(self, timestep, states):
+        import multiprocessing
+        child = multiprocessing.get_context('fork').Process(target=_child_job)
+        child.start()
+        child.join()
+        u = super().next_update(timestep, states)
+        u['shared']['count'] += 0 if child.exitcode == 0 else 1000
+        return u
+
+
+class Grower(Process):
+    """generates a compartment at a scripted tick: a process and a step in it, each marked parallel or not"""
+    defaults = {'at': 2, 'key': 'n0', 'time_step': 1.0, 'proc_par': True, 'step_par': True, 'divide': False}
+
+    def __init__(self, parameters=None):
+        super().__init__(parameters)
+        self.k = 0
+
+    def ports_schema(self):
+        return {'agents': {'*': {'own': {'elapsed': {'_default': 0.0}}}}}
+
+    def compartment(self, proc_par):
+        pp = {'pid': 0, 'time_step': 1.0}
+        if proc_par:
+            pp['_parallel'] = True
+        sp = {'_parallel': True} if self.parameters['step_par'] else {}
+        return {
+            'processes': {'acc': Acc(pp)},
+            'steps': {'d': Doubler(sp)},
+            'flow': {'d': []},
+            'topology': {'acc': {'shared': ('..', '..', 'shared'), 'own': ('own',)},
+                         'd': {'shared': ('..', '..', 'shared')}}}
+
+    def next_update(self, timestep, states):
+        self.k += 1
+        key = self.parameters['key']
+        if self.k == self.parameters['at']:
+            # (a mother that will be divided holds a SERIAL process: a process with an update in flight that is
+            # divided away is the known finding K2/K3, exercised by its own cases; its parallel step is idle then)
+            comp = self.compartment(self.parameters['proc_par'] and not self.parameters['divide'])
+            return {'agents': {'_generate': [dict(comp, key=key, initial_state={})]}}
+        if self.parameters['divide'] and self.k == self.parameters['at'] + 1:
+            return {'agents': {'_divide': {'mother': key, 'daughters': [
+                dict(self.compartment(self.parameters['proc_par']), key=key + 'a'),
+                dict(self.compartment(self.parameters['proc_par']), key=key + 'b')]}}}
+        return {}
